@@ -296,6 +296,189 @@ theorem C18_wellknown : wellknownOk wellknown = true := by
   unfold wellknownOk at *
   rw [List.all_append, List.all_append, h1, h2, h3]; rfl
 
+/-! ## which feature record a tag resolves to (`collect_feature_maps` on the selected records)
+
+`compileFeatures` is C14's model of the feature compiler (`Map.collectFeatureMaps`) run on the font facts computed from
+the records selected above (`mapFont`): `find_language_feature` under the selected script / language system, and —
+for features registered with `F_GLOBAL_SEARCH` only — the search through the whole FeatureList. A FeatureList may hold
+any number of records with one tag (pan-CJK fonts: one `vert`, one `locl` per language system). -/
+
+/-- a FeatureList of the pan-CJK kind: three `vert` records; script `DFLT` whose default language system lists no
+    feature, `JAN ` lists record 1 and `KOR ` record 2 -/
+def cjk : Table :=
+  ⟨[⟨TAG_DFLT, some ⟨TAG_dflt, none, []⟩,
+     [⟨fromBytesLossy (asc "JAN "), none, [1]⟩, ⟨fromBytesLossy (asc "KOR "), none, [2]⟩]⟩],
+   [TAG_vert, TAG_vert, TAG_vert]⟩
+/-- `enable_feature(vert, F_GLOBAL_SEARCH, 1)` -/
+def vertInfo : Map.Info := ⟨TAG_vert, 0, 1, Map.genCfg.fGlobalSearch ||| Map.genCfg.fGlobal, 1, 0, 0⟩
+/-- language `KOR ` found -/
+def selKOR : Selection := ⟨false, 0, TAG_DFLT, some 1, none⟩
+/-- no language record found: the default language system -/
+def selDflt : Selection := ⟨false, 0, TAG_DFLT, none, none⟩
+def vertMap (i : Option Nat) : Map.FMap :=
+  ⟨TAG_vert, i, none, 0, 0, Map.genCfg.globalShift, Map.genCfg.globalBit, Map.genCfg.globalBit, true, true, false, false⟩
+
+example : selectTable cjk [fromBytesLossy (asc "hani")] [fromBytesLossy (asc "KOR ")] = .ok (some selKOR) := by decide +kernel
+example : selectTable cjk [fromBytesLossy (asc "hani")] [fromBytesLossy (asc "ENG ")] = .ok (some selDflt) := by decide +kernel
+
+/-- A FEATURE LISTED BY THE SELECTED LANGUAGE SYSTEM IS THE ONE APPLIED. Whatever features the shaper registered
+    (`infos`, any flags, `F_GLOBAL_SEARCH` included): if the language system selected in GSUB or in GPOS lists a record
+    under the tag of a compiled feature map, the map's indices are exactly the records the two selected language
+    systems list (first listed first) — no other record of the FeatureList takes part, however many carry the tag. -/
+theorem C18_listed_feature_applied (c : Map.Cfg) (tables : List (Option Table)) (sels : List (Option Selection))
+    (isSimple : Bool) (infos : List Map.Info) (f : Map.FMap) (hf : f ∈ compileFeatures c tables sels isSimple infos)
+    (hl : (langFeatureAt tables sels 0 f.tag).isSome ∨ (langFeatureAt tables sels 1 f.tag).isSome) :
+    f.index0 = langFeatureAt tables sels 0 f.tag ∧ f.index1 = langFeatureAt tables sels 1 f.tag := by
+  obtain ⟨info, _, ht, hx⟩ := compileFeatures_index c tables sels isSimple infos f hf
+  unfold resolve at hx
+  rw [ht] at hx
+  have : ((langFeatureAt tables sels 0 f.tag).isSome || (langFeatureAt tables sels 1 f.tag).isSome) = true := by
+    rcases hl with h | h <;> simp [h]
+  simp only [this, if_true] at hx
+  injection hx with h0 h1
+  exact ⟨h0, h1⟩
+
+example : compileFeatures Map.genCfg [some cjk, none] [some selKOR, none] false [vertInfo] = [vertMap (some 2)] ∧
+    (langFeatureAt [some cjk, none] [some selKOR, none] 0 TAG_vert).isSome = true := by decide +kernel
+
+/-- ONLY THE GLOBAL SEARCH REACHES AN UNLISTED RECORD. If a compiled feature map points to a record that the selected
+    language system of that table does not list under its tag, then no selected language system (GSUB or GPOS) lists the
+    tag at all, the feature was registered with `F_GLOBAL_SEARCH`, and the record is the result of the global search. -/
+theorem C18_unlisted_only_by_global_search (c : Map.Cfg) (tables : List (Option Table)) (sels : List (Option Selection))
+    (isSimple : Bool) (infos : List Map.Info) (f : Map.FMap) (hf : f ∈ compileFeatures c tables sels isSimple infos)
+    (h : f.index0 ≠ langFeatureAt tables sels 0 f.tag ∨ f.index1 ≠ langFeatureAt tables sels 1 f.tag) :
+    langFeatureAt tables sels 0 f.tag = none ∧ langFeatureAt tables sels 1 f.tag = none ∧
+    f.index0 = anyFeatureAt tables 0 f.tag ∧ f.index1 = anyFeatureAt tables 1 f.tag ∧
+    ∃ info ∈ Map.dedupInfos c isSimple infos, info.tag = f.tag ∧ info.flags &&& c.fGlobalSearch ≠ 0 := by
+  obtain ⟨info, hi, ht, hx⟩ := compileFeatures_index c tables sels isSimple infos f hf
+  unfold resolve at hx
+  rw [ht] at hx
+  by_cases hs : ((langFeatureAt tables sels 0 f.tag).isSome || (langFeatureAt tables sels 1 f.tag).isSome) = true
+  · simp only [hs, if_true] at hx
+    injection hx with h0 h1
+    rcases h with h | h
+    · exact absurd h0 h
+    · exact absurd h1 h
+  · have hn : langFeatureAt tables sels 0 f.tag = none ∧ langFeatureAt tables sels 1 f.tag = none := by
+      cases h0 : langFeatureAt tables sels 0 f.tag <;> cases h1 : langFeatureAt tables sels 1 f.tag <;> simp_all
+    rw [if_neg hs] at hx
+    by_cases hg : info.flags &&& c.fGlobalSearch ≠ 0
+    · rw [if_pos hg] at hx
+      injection hx with h0 h1
+      exact ⟨hn.1, hn.2, h0, h1, info, hi, ht, hg⟩
+    · rw [if_neg hg] at hx
+      injection hx with h0 h1
+      rw [hn.1, hn.2] at h
+      rcases h with h | h
+      · exact absurd h0 h
+      · exact absurd h1 h
+
+example : compileFeatures Map.genCfg [some cjk, none] [some selDflt, none] false [vertInfo] = [vertMap (some 0)] ∧
+    langFeatureAt [some cjk, none] [some selDflt, none] 0 TAG_vert = none := by decide +kernel
+
+/-- EXACTLY THE LISTED RECORDS. A record reached through the selected language system is one of the feature indices
+    that language system lists, and it carries the tag of the feature map. -/
+theorem C18_applied_record_listed (c : Map.Cfg) (tables : List (Option Table)) (sels : List (Option Selection))
+    (isSimple : Bool) (infos : List Map.Info) (f : Map.FMap) (hf : f ∈ compileFeatures c tables sels isSimple infos)
+    (hl : (langFeatureAt tables sels 0 f.tag).isSome ∨ (langFeatureAt tables sels 1 f.tag).isSome)
+    (t : Nat) (i : Nat) (hi : (if t = 0 then f.index0 else f.index1) = some i) (ht : t ≤ 1) :
+    ∃ tb s sys, tables[t]?.join = some tb ∧ sels[t]?.join = some s ∧
+      langSysOf tb s.scriptIndex s.langIndex = some sys ∧ i ∈ sys.features ∧ tb.features[i]? = some f.tag := by
+  obtain ⟨h0, h1⟩ := C18_listed_feature_applied c tables sels isSimple infos f hf hl
+  have : t = 0 ∨ t = 1 := by omega
+  rcases this with rfl | rfl
+  · simp only [if_true] at hi
+    exact langFeatureAt_some (h0 ▸ hi)
+  · simp only [Nat.succ_ne_zero, if_false] at hi
+    exact langFeatureAt_some (h1 ▸ hi)
+
+/-- THE GLOBAL SEARCH TAKES THE FIRST RECORD. Whatever the order of the FeatureList, the record the global search
+    returns carries the tag and no earlier record does (`hb_ot_layout_table_find_feature`); on a FeatureList sorted by
+    tag — tags may repeat — it finds a record whenever one exists. -/
+theorem C18_global_search_first_record (tables : List (Option Table)) (t : Nat) (ft : Tag) :
+    (∀ i, anyFeatureAt tables t ft = some i →
+      ∃ tb, tables[t]?.join = some tb ∧ tb.features[i]? = some ft ∧ ∀ j, j < i → tb.features[j]? ≠ some ft) ∧
+    (∀ tb, tables[t]?.join = some tb → tb.features.Pairwise (· ≤ ·) → anyFeatureAt tables t ft = none →
+      ft ∉ tb.features) :=
+  ⟨fun _ h => anyFeatureAt_some h, fun _ htb hs h => anyFeatureAt_none htb hs h⟩
+
+example : anyFeatureAt [some cjk, none] 0 TAG_vert = some 0 ∧ cjk.features.Pairwise (· ≤ ·) := by decide +kernel
+
+/-- Of the features `ot_shape.rs` registers for a plan (`Map.planBuilder`, constants of the compiled crate), only `vert`
+    carries `F_GLOBAL_SEARCH`, and only in the two vertical directions. -/
+theorem C18_plan_global_search_vert_only (dir : Nat) (info : Map.Info)
+    (hi : info ∈ Map.dedupInfos Map.genCfg (Map.planBuilder Map.genCfg dir []).isSimple (Map.planBuilder Map.genCfg dir []).infos)
+    (hg : info.flags &&& Map.genCfg.fGlobalSearch ≠ 0) : info.tag = TAG_vert ∧ 2 ≤ dir := by
+  have key : ∀ d, d ≤ 2 → ∀ info ∈ Map.dedupInfos Map.genCfg (Map.planBuilder Map.genCfg d []).isSimple (Map.planBuilder Map.genCfg d []).infos,
+      info.flags &&& Map.genCfg.fGlobalSearch ≠ 0 → info.tag = TAG_vert ∧ 2 ≤ d := by
+    decide +kernel
+  by_cases h : dir ≤ 2
+  · exact key dir h info hi hg
+  · have hd : 2 ≤ dir := by omega
+    rw [planBuilder_dir _ dir hd] at hi
+    exact ⟨(key 2 (Nat.le_refl 2) info hi hg).1, hd⟩
+
+example : ∃ info ∈ Map.dedupInfos Map.genCfg (Map.planBuilder Map.genCfg 2 []).isSimple (Map.planBuilder Map.genCfg 2 []).infos,
+    info.flags &&& Map.genCfg.fGlobalSearch ≠ 0 := by decide +kernel
+
+/-- THE PLAN, END TO END. For the plan compiled from a script, a language string and a direction (selection as above,
+    features of `ot_shape.rs`): every feature map other than `vert`, every feature map of a horizontal plan, and `vert`
+    itself as soon as a selected language system lists it, points exactly to the records the selected language systems
+    list under its tag (GSUB and GPOS independently; `none` where the language system lists none). -/
+theorem C18_plan_features_listed (tables : List (Option Table)) (script : Option Tag) (language : Option Bytes)
+    (dir : Nat) (feats : List Map.FMap) (h : planFeatures tree tables script language dir = .ok feats) :
+    ∃ sels, selectAll tree tables script language = .ok sels ∧
+      ∀ f ∈ feats, (f.tag ≠ TAG_vert ∨ dir < 2 ∨
+          (langFeatureAt tables sels 0 f.tag).isSome ∨ (langFeatureAt tables sels 1 f.tag).isSome) →
+        f.index0 = langFeatureAt tables sels 0 f.tag ∧ f.index1 = langFeatureAt tables sels 1 f.tag := by
+  unfold planFeatures at h
+  cases hs : selectAll tree tables script language with
+  | error e => rw [hs] at h; cases h
+  | ok sels =>
+    rw [hs] at h
+    simp only [bind, Except.bind] at h
+    injection h with h
+    subst h
+    refine ⟨sels, rfl, ?_⟩
+    intro f hf hcase
+    by_cases hne : f.index0 ≠ langFeatureAt tables sels 0 f.tag ∨ f.index1 ≠ langFeatureAt tables sels 1 f.tag
+    · obtain ⟨h0, h1, _, _, info, hi, ht, hg⟩ :=
+        C18_unlisted_only_by_global_search _ tables sels _ _ f hf hne
+      obtain ⟨hv, hd⟩ := C18_plan_global_search_vert_only dir info hi hg
+      rcases hcase with hc | hc | hc | hc
+      · exact absurd (ht ▸ hv) hc
+      · omega
+      · rw [h0] at hc; cases hc
+      · rw [h1] at hc; cases hc
+    · constructor
+      · by_cases h0 : f.index0 = langFeatureAt tables sels 0 f.tag
+        · exact h0
+        · exact absurd (Or.inl h0) hne
+      · by_cases h1 : f.index1 = langFeatureAt tables sels 1 f.tag
+        · exact h1
+        · exact absurd (Or.inr h1) hne
+
+/-- … and `vert` in a vertical plan, when no selected language system lists it, is the global search's record. -/
+theorem C18_plan_vert_unlisted (tables : List (Option Table)) (script : Option Tag) (language : Option Bytes)
+    (dir : Nat) (feats : List Map.FMap) (sels : List (Option Selection))
+    (h : planFeatures tree tables script language dir = .ok feats)
+    (hs : selectAll tree tables script language = .ok sels) (f : Map.FMap) (hf : f ∈ feats) (hv : f.tag = TAG_vert)
+    (h0 : langFeatureAt tables sels 0 TAG_vert = none) (h1 : langFeatureAt tables sels 1 TAG_vert = none) :
+    f.index0 = anyFeatureAt tables 0 TAG_vert ∧ f.index1 = anyFeatureAt tables 1 TAG_vert := by
+  unfold planFeatures at h
+  rw [hs] at h
+  simp only [bind, Except.bind] at h
+  injection h with h
+  subst h
+  obtain ⟨info, hi, ht, hx⟩ := compileFeatures_index _ tables sels _ _ f hf
+  have hg := plan_vert_has_global_search dir info hi (ht.trans hv)
+  unfold resolve at hx
+  rw [ht, hv, h0, h1] at hx
+  simp only [Option.isSome_none, Bool.or_self, Bool.false_eq_true, if_false] at hx
+  rw [if_pos hg] at hx
+  injection hx with a b
+  exact ⟨a, b⟩
+
 /-! ## totality (tag part of C01) -/
 
 /-- Once `lang_cmp` and `strncmp` compare bytes (D10, D10b repaired) the entry point returns for every script and
